@@ -1,5 +1,6 @@
 //! Verification harness for slawlor/ractor: runs seeded scenarios of the real code under
 //! monitors. One process = one shard; scenarios run strictly one at a time (global tables).
+mod alloc_meter;
 mod ctl;
 mod json;
 mod prng;
@@ -9,6 +10,9 @@ mod report;
 mod th;
 mod trace;
 mod vt;
+
+#[global_allocator]
+static GLOBAL: alloc_meter::Meter = alloc_meter::Meter;
 
 use std::sync::atomic::{AtomicU64, Ordering};
 use std::sync::Mutex;
@@ -59,6 +63,9 @@ pub fn take_foreign_panics() -> Vec<(String, String)> {
     std::mem::take(&mut *FOREIGN_PANICS.lock().unwrap_or_else(|e| e.into_inner()))
 }
 
+/// Set by checks whose inputs provoke (contained) panics by design; they are still recorded.
+pub static QUIET_PANICS: std::sync::atomic::AtomicBool = std::sync::atomic::AtomicBool::new(false);
+
 fn install_panic_hook() {
     std::panic::set_hook(Box::new(|info| {
         let msg = if let Some(s) = info.payload().downcast_ref::<&str>() {
@@ -72,7 +79,9 @@ fn install_panic_hook() {
             return;
         }
         let loc = info.location().map(|l| format!("{}:{}", l.file(), l.line())).unwrap_or_default();
-        eprintln!("[harness] foreign panic at {loc}: {msg}");
+        if !QUIET_PANICS.load(Ordering::Relaxed) {
+            eprintln!("[harness] foreign panic at {loc}: {msg}");
+        }
         FOREIGN_PANICS.lock().unwrap_or_else(|e| e.into_inner()).push((loc, msg));
     }));
 }
